@@ -56,12 +56,15 @@ Batches ==
     { us \in UNION { [1..n -> [k : Keys, ver : 1..MaxVer, del : BOOLEAN]] : n \in 1..MaxUpLen } :
         /\ \A i, j \in DOMAIN us : i # j => us[i].k # us[j].k
         /\ \A i \in DOMAIN us : us[i].ver = ucur[us[i].k].ver + 1 /\ (us[i].del => ucur[us[i].k].present) }
+\* Cache.inputC has capacity 2 * MaxBatchSize: the producer blocks when it is full
 Upstream(us) ==
+    /\ Len(inq) < 2 * MaxBatch
     /\ inq' = Append(inq, IU(us))
     /\ LET r == UpAll(ucur, uhist, us) IN ucur' = r[1] /\ uhist' = r[2]
     /\ UNCHANGED <<pendU, pendS, pc, kvs, crumbs, cst, ccr, cursor, csent, net, held, nstatus, nhold, bad, hasIS, isnap, joined, cview>>
 Status(s) ==
     /\ nstatus < MaxStatus /\ nstatus' = nstatus + 1
+    /\ Len(inq) < 2 * MaxBatch
     /\ inq' = Append(inq, IS(s))
     /\ P!UStatus(s)
     /\ UNCHANGED <<pendU, pendS, pc, kvs, crumbs, cst, ccr, cursor, csent, net, held, nhold, bad>>
